@@ -18,9 +18,9 @@ PROPERTY = 'C01'
 
 META = {
     'bounds': {
-        'quick': 'vector length m<=4 (summary laws), m<=2 direct; markers boolean {0,1} and arbitrary reals; '
+        'quick': 'tuple/ndarray arguments m=2 used in 4 comparisons; vector length m<=4 (summary laws), m<=2 direct; markers boolean {0,1} and arbitrary reals; '
                  'epsilon lists: symbolic positive for m<=2, fixed positive lists (incl. shorter than m, scalar) for m<=4',
-        'thorough': 'm<=6 (summary laws), m<=3 direct; symbolic positive epsilons m<=2, fixed lists m<=6',
+        'thorough': 'tuple/ndarray arguments m<=3; m<=6 (summary laws), m<=3 direct; symbolic positive epsilons m<=2, fixed lists m<=6',
     },
     'stubs': ['artap.operators.float -> identity on proxies', 'artap.operators.math.pow -> x*x for exponent 2.0'],
     'assumptions': [
